@@ -17,8 +17,16 @@ CONSTANT TraceFile
 
 V(n, t, s) == [name |-> n, type |-> t, sub |-> s]
 Vals == {V(n, t, s) : n \in {"", "a", "B"}, t \in {"T1", "T2"}, s \in {"", "s", "k=v"}}
+\* Names and subtypes the struct-and-tag representation of a set cannot carry, and some it can although they
+\* need care.  They are symbols here; the harness substitutes the real strings (both ways):
+\*   names     xdotless = U+0131 (upper-cases to "I", which lower-cases to "i"), xdigit = "1a", xunder = "_a" (no exported field name)
+\*   subtypes  xcomma = "a,b" (the tag separator);  xquote = a"b and xback = a\b (fine once the tag is quoted properly)
+BadName(n) == n \in {"xdotless", "xdigit", "xunder"}
+BadSub(s) == s = "xcomma"
+OddVals == {V(n, t, s) : n \in {"", "a", "xdotless", "xdigit", "xunder"}, t \in {"T1"}, s \in {"", "s", "xcomma", "xquote", "xback"}}
 Lower(n) == IF n = "B" THEN "b" ELSE n
-Lists == UNION {[1..k -> Vals] : k \in 0..3}
+Lists == UNION {[1..k -> Vals] : k \in 0..3} \cup UNION {[1..k -> OddVals \cup {V("B", "T2", "")}] : k \in 1..2}
+Representable(d) == \A i \in DOMAIN d.vals : ~BadName(d.vals[i].name) /\ ~BadSub(d.vals[i].sub)
 \* distinct values; no repeated name (type-only values of one type may differ in their subtype)
 WF(q) == \A i, j \in DOMAIN q : i # j =>
             /\ q[i] # q[j]
@@ -45,13 +53,13 @@ TraceSpec == TInit /\ [][TNext]_<<d, l, rec>>
 C15 == rec.ev = "obs" =>
    LET dd == rec.desc IN
    /\ rec.panic = ""
-   /\ rec.ok
-   /\ rec.values = ExpValues(dd)
-   /\ \A i \in DOMAIN dd.vals :
+   /\ rec.ok = Representable(dd)          \* a list the set cannot represent is refused with an error, never built wrongly
+   /\ rec.ok => rec.values = ExpValues(dd)
+   /\ rec.ok => \A i \in DOMAIN dd.vals :
         /\ dd.vals[i].name # "" => rec.named[i] = i
         /\ (dd.vals[i].name = "" /\ Cardinality(IdxTyped(dd, dd.vals[i].type)) = 1) => rec.typed[i] = i
         /\ Cardinality(IdxTS(dd, dd.vals[i].type, dd.vals[i].sub)) = 1 => rec.ts[i] = i
-   /\ rec.roundtrip = [i \in DOMAIN dd.vals |-> i]
+   /\ rec.ok => rec.roundtrip = [i \in DOMAIN dd.vals |-> i]
 Accepted == TLCGet("stats").diameter - 1 = Len(Trace)
 Pos == [line |-> l, sid |-> 0]
 =============================================================================
